@@ -237,15 +237,15 @@ def gen_md(rng, n):
 
 def gen_rows(rng, n, m):
     style = rng.random()
-    if style < 0.08:
+    if style < 0.05:
         return [[0.0] * m for _ in range(n)]
     if style < 0.16:
         return [[gen_float(rng) or 1.0 for _ in range(m)] for _ in range(n)]
-    density = rng.choice([0.3, 0.5, 0.8]) if n * m <= 4 else rng.choice([0.1, 0.3, 0.5, 0.8])
+    density = rng.choice([0.7, 0.9]) if n * m <= 4 else rng.choice([0.1, 0.3, 0.5, 0.8])
     rows = [[(gen_float(rng) if rng.random() < density else 0.0) for _ in range(m)] for _ in range(n)]
     # all-zero rows at chosen places: first / middle / last / several in a row
-    if n > 1:
-        for _ in range(rng.choice([0, 1, 1, 2])):
+    if n > 2 or (n == 2 and rng.random() < 0.4):
+        for _ in range(rng.choice([0, 1, 1, 2]) if n > 2 else 1):
             rows[rng.choice([0, n // 2, n - 1, rng.randrange(n)])] = [0.0] * m
     if m > 1 and rng.random() < 0.3:
         j = rng.choice([0, m - 1, rng.randrange(m)])
